@@ -345,7 +345,74 @@ class SBytes(SVal):
 
 
 class SIntList(SVal):
+    """a list of integers (width 1) or of w-tuples of integers (one IntList term per column, equal lengths) of unknown
+    length.  Python lists are mutable: `append` rebinds the column terms of this very object."""
     __hash__ = SVal.__hash__
+
+    def __init__(self, t, *more):
+        SVal.__init__(self, t)
+        self.ts = (t,) + tuple(more)
+
+    @property
+    def width(self):
+        return len(self.ts)
+
+    def set_terms(self, ts):
+        self.ts = tuple(ts)
+        self.t = self.ts[0]
+
+
+LEMPTY = z3.Const("lempty", IntList)
+LAPP = z3.Function("lapp", IntList, I, IntList)          # l + [v]
+LREV = z3.Function("lrev", IntList, IntList)             # reversed(l)
+LPADZ = z3.Function("lpadz", I, IntList, IntList)        # [0] * d + l
+
+
+def _lt(l):
+    return l.t if isinstance(l, SIntList) else None
+
+
+def llen(l):
+    if isinstance(l, SIntList):
+        return SInt(LLEN(l.t))
+    return len(l)
+
+
+def lat(l, i):
+    """l[i]; total on the specification side (0 outside the list)"""
+    if isinstance(l, SIntList):
+        return SInt(LAT(l.t, T(i)))
+    if isinstance(i, SVal):
+        raise EngineLimit("symbolic index into a concrete list")
+    return l[i] if 0 <= i < len(l) else 0
+
+
+def lapp(l, v):
+    if isinstance(l, SIntList) or isinstance(v, SVal):
+        return SIntList(LAPP(list_term(l), T(v)))
+    return list(l) + [v]
+
+
+def lrev(l):
+    if isinstance(l, SIntList):
+        return SIntList(LREV(l.t))
+    return list(reversed(l))
+
+
+def lpadz(d, l):
+    if isinstance(l, SIntList) or isinstance(d, SVal):
+        return SIntList(LPADZ(T(d), list_term(l)))
+    return [0] * max(d, 0) + list(l)
+
+
+def list_term(l):
+    """the IntList term of a (width-1) list value; concrete lists are built from lempty by lapp"""
+    if isinstance(l, SIntList):
+        return l.t
+    t = LEMPTY
+    for v in l:
+        t = LAPP(t, T(v))
+    return t
 
 
 OidSort = z3.DeclareSort("Oid")
@@ -658,6 +725,8 @@ class Axiom(object):
         for i, s in enumerate(self.sorts):
             if s == "int":
                 vs.append(SInt(z3.Int("%s!%d" % (self.name, i))))
+            elif s == "list":
+                vs.append(SIntList(z3.Const("%s!%d" % (self.name, i), IntList)))
             else:
                 vs.append(SBytes(z3.Const("%s!%d" % (self.name, i), Bytes)))
         body = self.body(*vs)
@@ -938,6 +1007,42 @@ def _(a, b):
     return Implies_(And_(0 <= a, a < b), 2 * pow2(a) <= pow2(b))
 
 
+# -- lists of integers (optional group "list")
+@axiom("llen_nonneg", ["list"], lambda l: [llen(l)])
+def _(l):
+    return llen(l) >= 0
+
+
+@axiom("lapp_def", ["list", "int"], lambda l, v: [lapp(l, v)])
+def _(l, v):
+    return And_(eq(llen(lapp(l, v)), llen(l) + 1), eq(lat(lapp(l, v), llen(l)), v))
+
+
+@axiom("lapp_at", ["list", "int", "int"], lambda l, v, i: [lat(lapp(l, v), i)], domain=lambda l, v, i: 0 <= i < len(l))
+def _(l, v, i):
+    return Implies_(And_(0 <= i, i < llen(l)), eq(lat(lapp(l, v), i), lat(l, i)))
+
+
+@axiom("lrev_len", ["list"], lambda l: [lrev(l)])
+def _(l):
+    return eq(llen(lrev(l)), llen(l))
+
+
+@axiom("lrev_at", ["list", "int"], lambda l, i: [lat(lrev(l), i)], domain=lambda l, i: 0 <= i < len(l))
+def _(l, i):
+    return Implies_(And_(0 <= i, i < llen(l)), eq(lat(lrev(l), i), lat(l, llen(l) - 1 - i)))
+
+
+@axiom("lpadz_len", ["int", "list"], lambda d, l: [lpadz(d, l)], domain=lambda d, l: 0 <= d <= 40, small=True)
+def _(d, l):
+    return Implies_(d >= 0, eq(llen(lpadz(d, l)), llen(l) + d))
+
+
+@axiom("lpadz_at", ["int", "list", "int"], lambda d, l, i: [lat(lpadz(d, l), i)], domain=lambda d, l, i: 0 <= d <= 40 and 0 <= i < d + len(l), small=True)
+def _(d, l, i):
+    return Implies_(And_(d >= 0, 0 <= i, i < d + llen(l)), eq(lat(lpadz(d, l), i), If_(i < d, 0, lat(l, i - d))))
+
+
 def pow2_facts(t):
     """ground facts for one pow2 term: small exponents are evaluated"""
     return z3.And(*[z3.Implies(t == c, POW2(t) == 2 ** c) for c in list(range(0, 17)) + [24, 32, 40, 48, 56, 64]])
@@ -946,7 +1051,8 @@ def pow2_facts(t):
 HEAVY = {"pow2_mono", "be_msb", "bytelen_mono", "shr_def", "shr_bound"}     # quadratic multi-patterns / nonlinear bodies
 
 # optional theories: only obligations of contracts that ask for them get these axioms (keeps every other query small)
-GROUPS = {"shift": {"shr_zero", "shr_shr", "shr_cong", "shr_def", "shr_small", "shr_bound", "be_prefix"}}
+GROUPS = {"shift": {"shr_zero", "shr_shr", "shr_cong", "shr_def", "shr_small", "shr_bound", "be_prefix"},
+          "list": {"llen_nonneg", "lapp_def", "lapp_at", "lrev_len", "lrev_at", "lpadz_len", "lpadz_at"}}
 _OPTIONAL = set().union(*GROUPS.values())
 
 
@@ -954,7 +1060,8 @@ def base_axioms(heavy=True, theories=()):
     on = set()
     for t in theories:
         on |= GROUPS.get(t, set())
-    return _beq_axioms() + [a.term() for a in AXIOMS if (heavy or a.name not in HEAVY) and (a.name not in _OPTIONAL or a.name in on)]
+    ground = [LLEN(LEMPTY) == 0] if "list" in theories else []
+    return _beq_axioms() + ground + [a.term() for a in AXIOMS if (heavy or a.name not in HEAVY) and (a.name not in _OPTIONAL or a.name in on)]
 
 
 # ----------------------------------------------------------------------------
